@@ -58,7 +58,7 @@ REAL_STUB = {
 BUDGET = {"quick": 25, "thorough": 600}
 NAMES = ("a", "b", "c")
 SIZES = (2, 0, 1, 3, -1, 400)
-KINDS = ("dict", "func-str", "func-triple", "fs", "fs2")
+KINDS = ("dict", "func-str", "func-triple", "fs", "fs2", "choice", "prefix")
 _VER = re.compile(r"^(\w+):v(\d+):7$")
 _setup_done = False
 
@@ -99,8 +99,9 @@ class Storage:
         self.mapping: dict[str, str] = {}
         self.files: dict[tuple[int, str], int] = {}
         self.cur: dict[str, int] = {}
-        self.ndirs = 2 if kind == "fs2" else 1
+        self.ndirs = 2 if kind in ("fs2", "choice") else 1
         self.dirs = [F.ROOT + f"t0d{i}" for i in range(self.ndirs)]
+        self.mappings: list[dict[str, str]] = [{}, {}]  # kind 'choice': one mapping per delegate loader
 
     @property
     def is_fs(self) -> bool:
@@ -123,6 +124,8 @@ class Storage:
         self.files[(di, name)] = v
         if self.is_fs:
             self.fs.put(f"{self.dirs[di]}/{name}", self.src(name, v).encode())
+        elif self.kind == "choice":
+            self.mappings[di][name] = self.src(name, v)
         else:
             self.mapping[name] = self.src(name, v)
         self._recompute(name)
@@ -133,6 +136,8 @@ class Storage:
         self.files.pop((di, name), None)
         if self.is_fs:
             self.fs.unlink(f"{self.dirs[di]}/{name}")
+        elif self.kind == "choice":
+            self.mappings[di].pop(name, None)
         else:
             self.mapping.pop(name, None)
         self._recompute(name)
@@ -160,6 +165,11 @@ class Storage:
 
         if self.kind == "dict":
             return jinja2.DictLoader(self.mapping)
+        if self.kind == "choice":
+            # delegating loaders override load(): the up-to-date check of the delegate that served must survive
+            return jinja2.ChoiceLoader([jinja2.DictLoader(m_) for m_ in self.mappings])
+        if self.kind == "prefix":
+            return jinja2.PrefixLoader({"p": jinja2.DictLoader(self.mapping)})
         m = self.mapping
         if self.kind == "func-str":
             return jinja2.FunctionLoader(lambda name: m.get(name))
@@ -182,6 +192,7 @@ class Storage:
             self.dirs = [F.ROOT + f"t{self.gen}d{i}" for i in range(self.ndirs)]
         else:
             self.mapping = {}
+            self.mappings = [{}, {}]
         for (di, name) in old:
             self.write(name, di)
 
@@ -208,7 +219,7 @@ def _mem_bytecode_cache():
 
 def canon(name: str) -> str:
     """'./a' and 'a' are the same file for FileSystemLoader but different cache keys."""
-    return name[2:] if name.startswith("./") else name
+    return name[2:] if name.startswith(("./", "p/")) else name
 
 
 class Model:
@@ -257,8 +268,11 @@ class Model:
         if self.kind == "func-str":
             return True
         cur = st.cur.get(name)
-        if self.kind in ("dict", "func-triple"):
+        if self.kind in ("dict", "func-triple", "prefix"):
             return cur == ent["version"]
+        if self.kind == "choice":
+            # the delegate that served the template watches only its own mapping
+            return st.files.get((ent["di"], name)) == ent["version"]
         if fault["kind"] == "getmtime":
             fault["kind"] = None  # consumed by the up-to-date check, which then reports "changed"
             return False
@@ -279,7 +293,8 @@ class Model:
             self.lru.popitem(last=False)
             self.evictions += 1
         path = st.path_of(name) if st.is_fs else None
-        self.lru[key] = {"version": st.cur[name], "path": path, "mtime": st.mtime_path(path) if st.is_fs else None}
+        di = next((i for i in range(st.ndirs) if (i, name) in st.files), 0)
+        self.lru[key] = {"version": st.cur[name], "path": path, "mtime": st.mtime_path(path) if st.is_fs else None, "di": di}
 
     evictions = 0
 
@@ -557,6 +572,8 @@ def run(tape) -> Outcome:
     models = [Model(size, auto_reload, kind) for _ in envs]
     aliases = kind in ("fs", "fs2") and tape.draw(3) == 2  # './a' names: same file, different cache slot
     req_names = list(names) + (["./" + n for n in names] if aliases else [])
+    if kind == "prefix":
+        req_names = ["p/" + n for n in names]
     old_loaders = []
     ops_dec = []
     nontrivial = False
